@@ -3,7 +3,7 @@
    of provenance over a history of tasks vs the recursive lineage). *)
 From Coq Require Import List Ascii String Arith Lia Bool.
 Import ListNotations.
-From SP Require Import Skel Gen Expected Str PathLex Format WfModel Audit AuditModel.
+From SP Require Import Skel Gen Expected ExpectedCones Str PathLex Format WfModel Audit AuditModel.
 Notation length := List.length.
 
 (* T1: writeAuditLogs (Upstream from the in-IPs' snapshots, members for joined ports; OutFiles; a copy per out-IP; tags of
@@ -80,9 +80,29 @@ Theorem C10_substream_tags_refuted :
   end = ([], [("m.txt.pre"%string, [("grp"%string, "m.txt"%string)])]).
 Proof. vm_compute. reflexivity. Qed.
 
+(* T1, call cones: every function of scipipe that the functions above can reach (calls and function values, interface calls
+   resolved to every implementation) is one the models were compared with -- a helper that is new to the cone, or a new call
+   of an old one, changes a list (the lists are regenerated from /repo on every run; ExpectedCones.v holds the accepted ones) *)
+Theorem C10_cone_conforms :
+  strs_eqb cone_Task_writeAuditLogs exp_cone_Task_writeAuditLogs
+  && strs_eqb cone_FileIP_AddTag exp_cone_FileIP_AddTag
+  && strs_eqb cone_FileIP_AddTags exp_cone_FileIP_AddTags
+  && strs_eqb cone_FileIP_Tags exp_cone_FileIP_Tags
+  && strs_eqb cone_FileIP_auditInfoSnapshot exp_cone_FileIP_auditInfoSnapshot
+  && strs_eqb cone_FileIP_SetAuditInfo exp_cone_FileIP_SetAuditInfo
+  && strs_eqb cone_FileIP_AuditInfo exp_cone_FileIP_AuditInfo
+  && strs_eqb cone_FileIP_WriteAuditLogToFile exp_cone_FileIP_WriteAuditLogToFile
+  && strs_eqb cone_UnmarshalAuditInfoJSONFile exp_cone_UnmarshalAuditInfoJSONFile
+  && strs_eqb cone_NewFileIP exp_cone_NewFileIP
+  && strs_eqb cone_Task_Execute exp_cone_Task_Execute
+  && strs_eqb cone_Process_createTasks exp_cone_Process_createTasks
+  && strs_eqb cone_components_MapToTags_Run exp_cone_components_MapToTags_Run = true.
+Proof. vm_compute. reflexivity. Qed.
+
 Print Assumptions C10_code_conforms.
 Print Assumptions C10_order_facts.
 Print Assumptions C10_record_fields.
 Print Assumptions C10_upstream_is_lineage.
 Print Assumptions C10_tags_propagate.
 Print Assumptions C10_substream_tags_refuted.
+Print Assumptions C10_cone_conforms.
